@@ -1,0 +1,91 @@
+//go:build verif
+
+package crl
+
+// Machine-checked contracts for package revocation/internal/crl (checked by /verif/govc; comment-only file).
+// Properties C05, C10.
+
+//@ import "crypto/x509"
+//@ import "crypto/x509/pkix"
+//@ import "time"
+//@ import "github.com/notaryproject/notation-core-go/revocation/crl"
+//@ import "github.com/notaryproject/notation-core-go/revocation/result"
+
+// ---- the entries of a bundle: base entries and (if present) delta entries. The statement's semantics does not
+// depend on list order (hold/remove is resolved by revocation time), so clauses quantify over each list separately.
+//@ spec func BaseEntries(b *crl.Bundle) []x509.RevocationListEntry { b.BaseCRL.RevokedCertificateEntries }
+//@ spec func DeltaEntries(b *crl.Bundle) []x509.RevocationListEntry { b.DeltaCRL.RevokedCertificateEntries }
+//@ spec func NB(b *crl.Bundle) int { len(b.BaseCRL.RevokedCertificateEntries) }
+//@ spec func ND(b *crl.Bundle) int { if b.DeltaCRL == nil then 0 else len(b.DeltaCRL.RevokedCertificateEntries) }
+
+// ---- stmt C10
+// "entries for other serial numbers never matter": M = serial match
+//@ stmt spec func M(e *x509.RevocationListEntry, c *x509.Certificate) bool { e.SerialNumber.Cmp(c.SerialNumber) == 0 }
+// "a matching entry with an unknown critical extension"
+//@ stmt spec func UnknownCrit(e *x509.RevocationListEntry) bool {
+//@     exists k :: 0 <= k && k < len(e.Extensions) && e.Extensions[k].Critical && !e.Extensions[k].Id.Equal(oidInvalidityDate) }
+// the entry's invalidity date as decoded by the repository's own parser (zero when absent)
+//@ spec func InvDate(e *x509.RevocationListEntry) time.Time { parseEntryExtensions$(e).result0.invalidityDate }
+//@ spec func ExtErr(e *x509.RevocationListEntry) bool { parseEntryExtensions$(e).err != nil }
+// "An entry whose invalidity date is later than a supplied (non-zero) signing time does not count"
+//@ stmt spec func Excused(e *x509.RevocationListEntry, t time.Time) bool { !t.IsZero() && !InvDate(e).IsZero() && t.Before(InvDate(e)) }
+//@ stmt spec func Counts(e *x509.RevocationListEntry, c *x509.Certificate, t time.Time) bool { M(e, c) && !Excused(e, t) }
+//@ stmt spec func IsTempReason(r int) bool { r == 6 || r == 8 }
+// "listed with any reason other than certificate-hold or remove-from-CRL"
+//@ stmt spec func Perm(e *x509.RevocationListEntry, c *x509.Certificate, t time.Time) bool { Counts(e, c, t) && !IsTempReason(e.ReasonCode) }
+//@ stmt spec func Temp(e *x509.RevocationListEntry, c *x509.Certificate, t time.Time) bool { Counts(e, c, t) && IsTempReason(e.ReasonCode) }
+// "the entry with the latest revocation time": no counted temporary entry in the first n entries of list s is later than e
+//@ stmt spec func MaxIn(s []x509.RevocationListEntry, n int, e *x509.RevocationListEntry, c *x509.Certificate, t time.Time) bool {
+//@     forall j :: 0 <= j && j < n && Temp(elemptr(s, j), c, t) ==> !e.RevocationTime.Before(elemptr(s, j).RevocationTime) }
+// strictly latest (OK direction: ties are left unconstrained, the statement is silent on them)
+//@ stmt spec func StrictMaxIn(s []x509.RevocationListEntry, n int, e *x509.RevocationListEntry, c *x509.Certificate, t time.Time) bool {
+//@     forall j :: 0 <= j && j < n && elemptr(s, j) != e && Temp(elemptr(s, j), c, t) ==> elemptr(s, j).RevocationTime.Before(e.RevocationTime) }
+//@ stmt spec func IsMaxTemp(b *crl.Bundle, e *x509.RevocationListEntry, c *x509.Certificate, t time.Time) bool {
+//@     Temp(e, c, t) && MaxIn(BaseEntries(b), NB(b), e, c, t) && MaxIn(DeltaEntries(b), ND(b), e, c, t) }
+//@ stmt spec func IsStrictMaxTemp(b *crl.Bundle, e *x509.RevocationListEntry, c *x509.Certificate, t time.Time) bool {
+//@     Temp(e, c, t) && StrictMaxIn(BaseEntries(b), NB(b), e, c, t) && StrictMaxIn(DeltaEntries(b), ND(b), e, c, t) }
+
+// ---- scan state (derived from the code; used in invariants): the first n entries of list s have been processed
+//@ spec func Scanned(s []x509.RevocationListEntry, n int, c *x509.Certificate, t time.Time) bool {
+//@     forall k :: 0 <= k && k < n ==> (M(elemptr(s, k), c) ==> !ExtErr(elemptr(s, k)) && !Perm(elemptr(s, k), c, t)) }
+//@ spec func NoTempIn(s []x509.RevocationListEntry, n int, c *x509.Certificate, t time.Time) bool {
+//@     forall k :: 0 <= k && k < n ==> !Temp(elemptr(s, k), c, t) }
+//@ spec func IsEntryOf(s []x509.RevocationListEntry, n int, e *x509.RevocationListEntry) bool { exists k :: 0 <= k && k < n && e == elemptr(s, k) }
+//@ spec func LatestOK(b *crl.Bundle, nb int, nd int, l *x509.RevocationListEntry, c *x509.Certificate, t time.Time) bool {
+//@     (l == nil ==> NoTempIn(BaseEntries(b), nb, c, t) && NoTempIn(DeltaEntries(b), nd, c, t)) &&
+//@     (l != nil ==> Temp(l, c, t) && (IsEntryOf(BaseEntries(b), nb, l) || IsEntryOf(DeltaEntries(b), nd, l)) &&
+//@                   MaxIn(BaseEntries(b), nb, l, c, t) && MaxIn(DeltaEntries(b), nd, l, c, t)) }
+//@ spec func BundleShape(b *crl.Bundle) bool {
+//@     b.BaseCRL != nil &&
+//@     (forall k :: 0 <= k && k < NB(b) ==> elemptr(BaseEntries(b), k).SerialNumber != nil) &&
+//@     (b.DeltaCRL != nil ==> (forall k :: 0 <= k && k < ND(b) ==> elemptr(DeltaEntries(b), k).SerialNumber != nil)) }
+
+//@ func parseEntryExtensions(entry)
+//@   requires entry != nil
+//@   ensures [crit] err == nil ==> !UnknownCrit(entry)
+//@   ensures [zero] err != nil ==> result.invalidityDate.IsZero()
+//@   loop 0
+//@     invariant forall k :: 0 <= k && k < it ==> (entry.Extensions[k].Critical ==> entry.Extensions[k].Id.Equal(oidInvalidityDate))
+//@   pure
+
+//@ func checkRevocation(cert, b, signingTime, crlURL)
+//@   props C10
+//@   requires cert != nil ==> cert.SerialNumber != nil
+//@   requires b != nil && b.BaseCRL != nil ==> BundleShape(b)
+//@   ensures [args] (cert == nil || b == nil || b.BaseCRL == nil) ==> err != nil
+//@   ensures [shape] err != nil ==> result == nil
+//@   ensures [shape-ok] err == nil ==> result != nil && fresh(result) && (result.Result == result.ResultOK || result.Result == result.ResultRevoked) && result.Server == crlURL && result.RevocationMethod == result.RevocationMethodCRL && result.Error == nil
+//@   ensures [err=>unknown-critical-or-malformed] (cert != nil && b != nil && b.BaseCRL != nil && err != nil) ==> (exists k :: 0 <= k && k < NB(b) && M(elemptr(BaseEntries(b), k), cert) && ExtErr(elemptr(BaseEntries(b), k))) || (exists k :: 0 <= k && k < ND(b) && M(elemptr(DeltaEntries(b), k), cert) && ExtErr(elemptr(DeltaEntries(b), k)))
+//@   ensures [no-match=>ok] (cert != nil && b != nil && b.BaseCRL != nil && (forall k :: 0 <= k && k < NB(b) ==> !M(elemptr(BaseEntries(b), k), cert)) && (forall k :: 0 <= k && k < ND(b) ==> !M(elemptr(DeltaEntries(b), k), cert))) ==> err == nil && result.Result == result.ResultOK
+//@   ensures [ok=>no-permanent] (err == nil && result.Result == result.ResultOK) ==> (forall k :: 0 <= k && k < NB(b) ==> !Perm(elemptr(BaseEntries(b), k), cert, signingTime)) && (forall k :: 0 <= k && k < ND(b) ==> !Perm(elemptr(DeltaEntries(b), k), cert, signingTime))
+//@   ensures [ok=>no-unknown-critical] (err == nil && result.Result == result.ResultOK) ==> (forall k :: 0 <= k && k < NB(b) ==> (M(elemptr(BaseEntries(b), k), cert) ==> !UnknownCrit(elemptr(BaseEntries(b), k)))) && (forall k :: 0 <= k && k < ND(b) ==> (M(elemptr(DeltaEntries(b), k), cert) ==> !UnknownCrit(elemptr(DeltaEntries(b), k))))
+//@   ensures [ok=>latest-not-hold] (err == nil && result.Result == result.ResultOK) ==> (forall k :: 0 <= k && k < NB(b) ==> !(IsStrictMaxTemp(b, elemptr(BaseEntries(b), k), cert, signingTime) && elemptr(BaseEntries(b), k).ReasonCode == 6)) && (forall k :: 0 <= k && k < ND(b) ==> !(IsStrictMaxTemp(b, elemptr(DeltaEntries(b), k), cert, signingTime) && elemptr(DeltaEntries(b), k).ReasonCode == 6))
+//@   ensures [revoked=>evidence] (err == nil && result.Result == result.ResultRevoked) ==> (exists k :: 0 <= k && k < NB(b) && (Perm(elemptr(BaseEntries(b), k), cert, signingTime) || (IsMaxTemp(b, elemptr(BaseEntries(b), k), cert, signingTime) && elemptr(BaseEntries(b), k).ReasonCode == 6))) || (exists k :: 0 <= k && k < ND(b) && (Perm(elemptr(DeltaEntries(b), k), cert, signingTime) || (IsMaxTemp(b, elemptr(DeltaEntries(b), k), cert, signingTime) && elemptr(DeltaEntries(b), k).ReasonCode == 6)))
+//@   loop $1#0
+//@     invariant jump$2 == 0
+//@     invariant Scanned(BaseEntries(b), it, cert, signingTime)
+//@     invariant LatestOK(b, it, 0, latestTempRevokedEntry, cert, signingTime)
+//@   loop $1#1
+//@     invariant jump$2 == 0 && b.DeltaCRL != nil
+//@     invariant Scanned(BaseEntries(b), NB(b), cert, signingTime) && Scanned(DeltaEntries(b), it, cert, signingTime)
+//@     invariant LatestOK(b, NB(b), it, latestTempRevokedEntry, cert, signingTime)
